@@ -41,6 +41,14 @@ CHECKS = {
    text="Grammar-based property testing: Latin-1 texts built from runs over ten character classes (so that every encodation mode, latch, unlatch and end-of-data rule is reached), macro envelopes, shape / min / max hints and forced sizes, checked at codeword level (hundreds of thousands of cases) and through the full writer -> image -> pure-barcode reader pipeline for all 30 sizes; oracle = termination (watchdog with isolated re-run), exact round trip, refusal of non-Latin-1 text, acceptance whenever the plain ASCII encodation + 16 codewords fits.",
    note="Trusted: the ASCII-length sufficient condition for 'fits'; x/text is not involved. The check cannot show optimality of the encodation, only correctness of what is produced.",
    tech="grammar-based round-trip property testing (rapid) with a termination watchdog"),
+ "C03": dict(cat="exploration", ref="DESIGN.md §4 C03",
+   text="Round-trip property testing per symbology with content generators that follow the property's quantifier (lengths, alphabets, code sets, guard pairs), geometry (width up to 8x, height 0..80, margin >= default), the multi-format UPC/EAN reader, a rejection side for malformed contents, and the complete UPC-E (2*10^6) and EAN-8 (10^7) number spaces in the thorough tier.",
+   note="Trusted: the independent mod-10 / UPC-E expansion formulae in internal/onedref for canonical forms. One known finding (UPC-E default margin vs. the reader's trailing quiet zone) is listed in known_findings.json and steered around by construction (counted).",
+   tech="round-trip property-based testing (rapid) + exhaustive number-space enumeration"),
+ "C10": dict(cat="fault_enumeration", ref="DESIGN.md §4 C10",
+   text="Fault enumeration over check characters: every single-digit substitution (9*len) of UPC/EAN numbers is carried by an independently constructed symbol and must be rejected unless the independent predicate says it verifies; every replacement of one Code 128 / Code 93 symbol character by every other data value must be rejected; writer check characters are compared with the mod-103 / mod-47 formulae through pattern tables typed from the standards; wrong supplied check digits must be refused; UPC-E expansion vs. zero suppression over the whole number space; all EAN-2 add-ons and EAN-5 add-ons x all 32 parity patterns.",
+   note="Trusted: internal/onedref (UPC/EAN codes, parity tables, Code 128 / Code 93 tables with structural self-checks, checksum formulae). One known finding (upside-down UPC-E misread) is listed in known_findings.json with a matcher specific to that root cause.",
+   tech="fault enumeration over substitutions with independently constructed symbols and an independent validity predicate"),
 }
 
 NOT_YET = {}
